@@ -245,6 +245,112 @@ def f6(repo: Repo) -> RuleResult:
     return res
 
 
+def _segments(shape: str) -> list:
+    """f-string shape -> [('lit', text) | ('hole', expr)]"""
+    out = []
+    i = 0
+    while i < len(shape):
+        if shape[i] == "{":
+            j = shape.index("}", i)
+            out.append(("hole", shape[i + 1 : j]))
+            i = j + 1
+        else:
+            j = shape.find("{", i)
+            j = len(shape) if j < 0 else j
+            out.append(("lit", shape[i:j]))
+            i = j
+    return out
+
+
+@rule("F6b", "helper-name templates of one C namespace have pairwise disjoint languages")
+def f6b(repo: Repo) -> RuleResult:
+    res = RuleResult("F6b", floor=6)
+    m = get_model(repo)
+    cf = m.cls("CFormatter", "impls/c/formatter.py")
+    prefixes = {}
+    for nm in ("bp_processor_name_prefix", "bp_json_formatter_name_prefix"):
+        f = cf.methods.get(nm)
+        v = [n.value.value for n in ast.walk(f.node) if isinstance(n, ast.Return) and isinstance(n.value, ast.Constant)] if f else []
+        if len(v) == 1:
+            prefixes[nm] = v[0]
+    templates = []
+    for name, f in cf.methods.items():
+        if not (name.startswith("format_bp_") and name.endswith(("_name", "_name_from_message_field", "_name_from_alias", "_initer"))):
+            continue
+        loc = {n.targets[0].id: src_of(n.value) for n in ast.walk(f.node) if isinstance(n, ast.Assign) and isinstance(n.targets[0], ast.Name)}
+        for n in ast.walk(f.node):
+            if isinstance(n, ast.Return) and isinstance(n.value, ast.JoinedStr):
+                segs = []
+                for kind, val in _segments(_fstring_shape(n.value)):
+                    if kind == "hole" and val == "prefix":
+                        src = loc.get("prefix", "")
+                        lit = next((v for k, v in prefixes.items() if k in src), None)
+                        if lit is None:
+                            segs.append(("hole", "prefix?"))
+                        else:
+                            segs.append(("lit", lit))
+                    elif kind == "hole":
+                        segs.append(("num" if "number" in val else "name", val))
+                    else:
+                        segs.append((kind, val))
+                # merge adjacent literals
+                merged = []
+                for sg in segs:
+                    if merged and sg[0] == "lit" and merged[-1][0] == "lit":
+                        merged[-1] = ("lit", merged[-1][1] + sg[1])
+                    else:
+                        merged.append(sg)
+                templates.append((name, merged))
+    res.note("templates: " + "; ".join(f"{n}: {''.join(v if k == 'lit' else '<' + k + '>' for k, v in t)}" for n, t in templates))
+    NAME_ALPHA = re.compile(r"^[A-Za-z0-9]*$")  # C definition names are pascal cased: no underscore
+
+    def ambiguous(a: list, b: list) -> Optional[str]:
+        """A name hole can swallow any pascal-alphabet literal that follows in the other template."""
+        i = j = 0
+        a, b = list(a), list(b)
+        while i < len(a) and j < len(b):
+            ka, va = a[i]
+            kb, vb = b[j]
+            if ka == "lit" and kb == "lit":
+                n = min(len(va), len(vb))
+                if va[:n] != vb[:n]:
+                    return None
+                if len(va) == len(vb):
+                    i += 1
+                    j += 1
+                elif len(va) > len(vb):
+                    a[i] = ("lit", va[n:])
+                    j += 1
+                else:
+                    b[j] = ("lit", vb[n:])
+                    i += 1
+            elif ka == "name" and kb == "lit":
+                return f"the name can begin with the literal `{vb}`" if NAME_ALPHA.match(vb) else None
+            elif kb == "name" and ka == "lit":
+                return f"the name can begin with the literal `{va}`" if NAME_ALPHA.match(va) else None
+            elif ka == "name" and kb == "name":
+                i += 1
+                j += 1
+            else:
+                return None
+        if i == len(a) and j == len(b):
+            return "same shape"
+        return None
+
+    for x in range(len(templates)):
+        for y in range(x + 1, len(templates)):
+            (n1, t1), (n2, t2) = templates[x], templates[y]
+            if [k for k, _ in t1] == [k for k, _ in t2] and [v for k, v in t1 if k == "lit"] == [v for k, v in t2 if k == "lit"]:
+                continue  # identical shapes: messages and aliases share one namespace of definition names
+            why = ambiguous(t1, t2)
+            res.inst(pair=f"{n1} / {n2}", overlap=why)
+            if why and why != "same shape":
+                s1 = "".join(v if k == "lit" else "<" + k + ">" for k, v in t1)
+                s2 = "".join(v if k == "lit" else "<" + k + ">" for k, v in t2)
+                res.bad(Finding("F6b", cf.rel, 0, f"CFormatter.{n1} / {n2}", f"{s1}  vs  {s2}", f"two helper-name templates can produce the same C function name ({why})", witness="type Foo = byte[3] next to message ArrayFoo: BpXXXProcessArrayFoo is defined twice", tag=f"{n1}~{n2}"))
+    return res
+
+
 @rule("F7", "an import/include names the file the compiler generates for the imported schema")
 def f7(repo: Repo) -> RuleResult:
     res = RuleResult("F7", floor=3)
